@@ -2,4 +2,4 @@ From Coq Require Import Extraction ExtrOcamlBasic.
 From CV Require Import Base.Num C15.GridModel.
 Extraction Language OCaml.
 Extraction "model.ml" mkNumOps nhalf wrap value_to_bin bin_to_value bins index_ok strides nxc ntot
-  address incr wrap_index nbins_round mkHistCfg mkHistIn hist_step hist_init hist_run.
+  address incr wrap_index nbins_round mkHistCfg mkHistIn hist_step hist_init hist_run mkGeom remap_target remap.
